@@ -15,7 +15,8 @@ RULE = ('histories of geometry edits as JSON op lists with index arguments resol
         'rename layer, add/delete well, translate, rotate, copy_layers_from, file round trip); random: Hypothesis op lists up to 25 '
         'long on recipe geometries (rectangular, shipped pieces up to 300 columns, hand-built). After every operation an '
         'independently recomputed structural invariant is evaluated clause by clause; a finding is named (operation, clause). '
-        'Non-trivial = a history with at least 2 different operation kinds; distinct = history JSON.')
+        'Non-trivial = a history with at least 2 different operation kinds; distinct = history JSON.'
+        ' Also: reduce() from any state (always held to its promise), adders called with a name already present (documented no-op), copied layer structures starting above / below the current top.')
 ASSUMPTIONS = ['preconditions from docs/code honoured by construction: refine on 3/4-sided columns, split_column on 4-sided columns, '
                'dmplex order only without many-sided columns, names within naming capacity, reduce to a connected subset',
                'raw list mutators whose derived state is documented to be refreshed by the caller are judged like every other edit '
@@ -210,6 +211,16 @@ def apply_op(R, g, op, chars):
         g.set_column_num_layers(newcol) if newcol.surface is not None else None
         if newcol.surface is None: newcol.num_layers = len(g.layerlist) - 1
         g.add_connection(mulgrids.connection([col, newcol]))
+    elif k == 'readd_column':
+        # a column taken out and the SAME object put back (with its connections, and the name lists refreshed the documented way)
+        if g.num_columns < 2: return g, None
+        col = g.columnlist[op['col'] % g.num_columns]
+        partners = sorted((c for c in g.columnlist if c is not col and any(col in k2.column and c in k2.column for k2 in g.connectionlist)),
+                          key=lambda c: c.name)
+        g.delete_column(col.name)
+        g.add_column(col)
+        for c in partners: g.add_connection(mulgrids.connection([col, c]))
+        g.setup_block_name_index(); g.setup_block_connection_name_index()
     elif k == 'add_duplicate':
         # the adders document: "if one with the specified name already exists, no new one is added" - a no-op
         what = op['what']
@@ -432,6 +443,7 @@ def small_alphabet(ncols, max_subset):
           {'op': 'delete_orphan_node'}]
     A += [{'op': 'add_duplicate', 'what': w, 'i': 0} for w in ('column', 'node', 'layer', 'well', 'connection')]
     A.append({'op': 'add_duplicate', 'what': 'column', 'i': 1})
+    for c in range(min(ncols, 3)): A.append({'op': 'readd_column', 'col': c})
     for n in range(1, ncols):
         for seed in range(ncols): A.append({'op': 'reduce', 'seed': seed, 'n': n - 1})
     for r in (1, 2):
@@ -475,6 +487,7 @@ def op_strategy():
         st.builds(lambda a: {'op': 'rotate', 'angle': a}, st.sampled_from([15., 45., 90., -60.])),
         st.builds(lambda d, t: {'op': 'copy_layers', 'dz': d, 'top': t}, st.lists(st.sampled_from([2., 5., 10.]), min_size=1, max_size=6),
                   st.sampled_from([0., 0., 5., 12., -5., -12.])),
+        st.builds(lambda c: {'op': 'readd_column', 'col': c}, i),
         st.builds(lambda w, n: {'op': 'add_duplicate', 'what': w, 'i': n}, st.sampled_from(['column', 'node', 'layer', 'well', 'connection']), i),
         st.just({'op': 'file'}), st.just({'op': 'add_node'}), st.just({'op': 'delete_orphan_node'}))
 
